@@ -301,3 +301,40 @@ func VC_C09_count() {
 	verifAssert((err == nil) == (n == 2), "C09.count.must-match")
 	verifReached("C09.count")
 }
+
+// VC_C09_size_mismatch_position: in a row of three values a wrong-size value is rejected
+// at whichever position it stands (also when the values after it convert cleanly); a
+// well-formed row is accepted with every value in its place.
+func VC_C09_size_mismatch_position() {
+	x := verifInt("x")
+	ts := []reflect.Type{vTypeOf((*vS1)(nil)), vTypeOf(0), vErrorT}
+	good := []interface{}{&vS1{A: x}, x, nil}
+	bad := []interface{}{"not a pointer", int8(1), vS3{A: x}}
+	pos := verifChoice("badAt", 4) // 3: none
+	row := make([]interface{}, 3)
+	copy(row, good)
+	if pos < 3 {
+		row[pos] = bad[pos]
+	}
+	var vs []reflect.Value
+	var err error
+	panicked := false
+	func() {
+		defer func() {
+			if r := recover(); r != nil {
+				panicked = true
+			}
+		}()
+		vs, err = I2V(row, ts, false)
+	}()
+	if pos < 3 {
+		verifAssert(panicked || err != nil, "C09.size-position.rejected-at-any-position")
+	} else {
+		verifAssert(!panicked && err == nil && len(vs) == 3, "C09.size-position.well-formed-row-accepted")
+		if !panicked && err == nil && len(vs) == 3 {
+			verifAssert(vs[0].IsValid() && vs[1].IsValid() && vs[2].IsValid(), "C09.size-position.every-value-valid")
+			verifAssert(vs[1].Int() == int64(x), "C09.size-position.value-in-its-place")
+		}
+	}
+	verifReached("C09.size-position")
+}
